@@ -177,9 +177,18 @@ class FQN:
                         return_value = find_obj(m, name)
                         if return_value is not None:
                             return return_value
+                attr_names = getattr(parent, "__dict__", None)
+                if attr_names is None:
+                    # an object of a user class with __slots__
+                    attr_names = [
+                        a
+                        for c in type(parent).__mro__
+                        for a in getattr(c, "__slots__", ())
+                        if hasattr(parent, a)
+                    ]
                 for attr in [
                     a
-                    for a in parent.__dict__
+                    for a in attr_names
                     if not a.startswith("__")
                     and not a.startswith("_tx_")
                     and not callable(getattr(parent, a))
